@@ -18,6 +18,7 @@ type CheckOpts struct {
 	Verbose                 bool
 	Only                    string // restrict to one function (debugging)
 	KeepSMT                 string // directory to keep SMT files in (debugging)
+	TimeoutS                int
 }
 
 type OblResult struct {
@@ -145,9 +146,39 @@ func RunCheck(o CheckOpts) int {
 			}
 		}
 	}
+	// lemmas tagged for this property: proved standalone, without any program context
+	if o.Only == "" {
+		le := w.newLemmaEnc()
+		for k, lm := range w.Contracts.Lemmas {
+			if !hasTagFor(lm.Tags, o.Prop) {
+				continue
+			}
+			env := &Env{e: le, st: State{}, old: State{}, vars: map[string]Val{}, guard: "true"}
+			if sp, ok := w.SSAPkgs[lm.Pkg]; ok {
+				env.pkg = sp.Pkg
+			}
+			t, err := env.EvalBool(lm.Expr)
+			ob := &Obligation{Name: fmt.Sprintf("lemma%d", k+1), Func: "lemmas", Kind: "lemma", Clause: lm.Src, Tags: lm.Tags, Guard: "true", Goal: t, enc: le}
+			if err != nil {
+				ob.Kind, ob.Clause, ob.Goal = "bind", err.Error()+" in "+lm.Src, "false"
+			}
+			ob.Cut = len(le.script)
+			all = append(all, ob)
+		}
+	}
+	if o.Verbose {
+		tot := 0
+		for _, ob := range all {
+			tot += len(ob.enc.script)
+		}
+		fmt.Printf("govc: encoded %d functions, %d obligations in %.1fs\n", len(encs), len(all), time.Since(start).Seconds())
+	}
 	timeout := 10 * time.Second
 	if o.Tier == "thorough" {
 		timeout = 60 * time.Second
+	}
+	if o.TimeoutS > 0 {
+		timeout = time.Duration(o.TimeoutS) * time.Second
 	}
 	results := make([]*OblResult, len(all))
 	var wg sync.WaitGroup
